@@ -5,7 +5,7 @@ use super::{
     state_cumulative_frequency, state_renormalize, state_step,
 };
 use crate::{
-    codecs::rans_nx16::ALPHABET_SIZE,
+    codecs::{alloc_zeroed, rans_nx16::ALPHABET_SIZE},
     io::reader::num::{read_u8, read_uint7, read_uint7_as},
 };
 
@@ -78,7 +78,7 @@ fn read_frequencies(src: &mut &[u8], frequencies: &mut Frequencies) -> io::Resul
         let uncompressed_size = read_uint7_as(src)?;
         let compressed_size = read_uint7_as(src)?;
         let mut compressed_data = split_off(src, compressed_size)?;
-        let mut dst = vec![0; uncompressed_size];
+        let mut dst = alloc_zeroed(uncompressed_size)?;
         order_0::decode(&mut compressed_data, &mut dst, STATE_COUNT)?;
         read_frequencies_inner(&mut &dst[..], frequencies, bits)?;
     } else {
@@ -107,7 +107,7 @@ fn read_frequencies_inner(
             }
         }
 
-        order_0::normalize_frequencies(fs, bits);
+        order_0::normalize_frequencies(fs, bits)?;
     }
 
     Ok(())
